@@ -16,7 +16,9 @@ from checks import C28
 
 
 def generate(ctx):
-    return C28.generate(ctx)
+    a = C28.generate(ctx)
+    b = ctx.run_extract("evmclones", ["lean"], out_lean="EvmClones.lean")
+    return None if a is None or b is None else b
 
 
 def run(ctx):
@@ -26,14 +28,18 @@ def run(ctx):
         "oracle values in the correspondence (computed with the same libraries, re-computed by Exec)",
         "json.Unmarshal of the proof is not modelled: the model receives the unmarshalled fields (or 'malformed'); the harness marshals the same fields",
         "the light-client state under the check is the C27 model state (built by the same genesis/sync ops)",
-        "only the eth router is modelled; bsc/heco/hsc/msc/pixie/bor/bytom/quorum routers use copies of the same logic over their own header stores (not tied here)",
+        "the seven sibling routers (bsc, heco, hsc, msc, pixiechain, polygon/bor, bytom) are tied by (T) the clone table of extract/evmclones "
+        "(their three functions equal the reference's after normalisation) and (C) executing their real verifyFrom*Tx on a mirror of the eth "
+        "light-client state (their stores' own records written by the harness) for every deposit, with the eth verdict as expectation; "
+        "their header stores themselves (C29) are not exercised; quorum (validator-signed header supplied with the deposit) reuses eth's "
+        "VerifyMerkleProof / CheckProofResult and is not driven",
     ]
-    ctx.cov["trusted_base"] += ["harness heth/evm + drv_eth (correspondence check)", "Lean compiler for the driver",
+    ctx.cov["trusted_base"] += ["extract/evmclones (go/parser clone check of the sibling routers)", "harness heth/evm + drv_eth (correspondence check)", "Lean compiler for the driver",
                                 "go-ethereum v1.9.15 trie / rlp / crypto (oracles and property evaluation)",
                                 "verif hooks: VerifVerifyFromEthTx wrapper, verifSealAccept"]
     if generate(ctx) is None:
         ctx.lean_ok = False
-        ctx.failed_theorems = ["<translator ethtables failed: Poly/Generated/EthConsts.lean not regenerated>"]
+        ctx.failed_theorems = ["<translator ethtables / evmclones failed: Poly/Generated/* not regenerated>"]
         ctx.judge_lean()
         return
     ctx.lean_props()
